@@ -142,6 +142,12 @@ static void run() {
         Case c = make_case(sec, bd, mask, uf, enc, coin, REG->at(li).name_en, load ? "load" : "create", kcoin, ksize, rt, off);
         set_current(c); std::string m = oracle(c); if (!m.empty()) VF_FAIL(c, m);
     });
+    // 1b. seeds patterned at the level of the 16 word indices (equal words, boundary indices, check word / coin relations)
+    rc_run("c01-patterned", a.n(4000, 80000), 100, [&]() {
+        auto sc = *g::patterned_seed(); int li = *g::lang_index(); bool load = *in_range<int>(0, 3) == 0;
+        Case c = make_case(sc.sec, sc.bd, 7, sc.feat & 7u, (sc.feat >> 4) & 1u, sc.coin, REG->at(li).name_en, load ? "load" : "create", sc.coin, 32, 0, 0); c.set("gen", "patterned"); W().ev.count("gen:patterned-word-indices");
+        set_current(c); std::string m = oracle(c); if (!m.empty()) VF_FAIL(c, m);
+    });
     // 2. longest words of Japanese / Korean (decomposed lengths the uniform generator almost never reaches)
     const auto& wc = g::WordClasses::get();
     rc_run("c01-longest", a.n(2000, 40000), 100, [&]() {
